@@ -26,11 +26,11 @@ ASSUMPTIONS = [
     "a scenario that errored through a raising cleanup has no responsible step or hook to name: only the error entry is demanded",
     "timestamps, host names, durations are not compared",
 ]
-REQUIRED = {"xml.well_formed": {"quick": 600, "thorough": 30000}, "testcases.match_scenarios": {"quick": 600, "thorough": 30000},
+REQUIRED = {"testcases.scenario_whose_sub_step_did_not_pass_is_not_reported_passed": {"quick": 20, "thorough": 1000}, "xml.well_formed": {"quick": 600, "thorough": 30000}, "testcases.match_scenarios": {"quick": 600, "thorough": 30000},
             "counters.match_entries": {"quick": 600, "thorough": 30000}, "problem.entry_names_step_or_hook": {"quick": 300, "thorough": 15000},
             "reporter.never_raises": {"quick": 600, "thorough": 30000},
             "testcases.scenario_whose_cleanup_raised_is_not_reported_passed": {"quick": 30, "thorough": 1500}}
-REQUIRED_SEEN = {"feature_file_name_class": ["dotted"], "row_name_schema": ["{name}"], "captured_output_size": ["beyond_64KiB"], "testcase_status": ["passed", "failed", "error", "hook_error", "skipped", "untested"],
+REQUIRED_SEEN = {"nested_sub_step": ["undefined", "fail", "error"], "feature_file_name_class": ["dotted"], "row_name_schema": ["{name}"], "captured_output_size": ["beyond_64KiB"], "testcase_status": ["passed", "failed", "error", "hook_error", "skipped", "untested"],
                  "hostile_class_in_report": ["xml_meta", "cdata_end", "c0", "c1", "ansi", "astral", "non_ascii", "format_meta"]}
 NSHARDS = {"quick": 16, "thorough": 16}
 
@@ -176,6 +176,18 @@ def run_case(lab, mon, case, rng, messages, noisy, sample=False):
             sys.stderr.write(err + "\n")
             logging.getLogger("bvm.hostile").warning("%s", log)
     kw = {}
+    nested = case.get("nested") or {}
+    nest_state = {"busy": False}
+    nested_victim = []      # (feature name, scenario name) whose step ran a non-passing sub-step through context.execute_steps()
+
+    def nest_plugin(state, context, text):
+        if text in nested and not nest_state["busy"]:
+            nest_state["busy"] = True
+            nested_victim.append((context.feature.name, context.scenario.name))
+            try:
+                context.execute_steps(u"Given %s\n" % nested[text])
+            finally:
+                nest_state["busy"] = False
     cleanup_victim = []     # (feature name, scenario name) of the scenario whose own cleanup the harness makes raise
     if case.get("hook_fault"):
         kw["hook_fault"] = case["hook_fault"]
@@ -207,7 +219,7 @@ def run_case(lab, mon, case, rng, messages, noisy, sample=False):
     try:
         if case.get("row_name_schema"):
             kw["config_kwargs"] = {"scenario_outline_annotation_schema": case["row_name_schema"]}
-        obs = lab.run(case["program"], args=args, reporters=reporters, step_plugins=[printer], messages=messages, **kw)
+        obs = lab.run(case["program"], args=args, reporters=reporters, step_plugins=[printer] + ([nest_plugin] if nested else []), messages=messages, **kw)
         W = lambda **k: RB.witness(case, messages={a: b for a, b in list(messages.items())[:3]}, **k)
         if obs.escaped is not None:
             mon.check("run.no_exception_escapes", False, lambda: W(escaped=repr(obs.escaped)))
@@ -274,6 +286,18 @@ def run_case(lab, mon, case, rng, messages, noisy, sample=False):
                 if len(reported) == 1:
                     mon.check("testcases.executed_scenario_reported_as_executed", reported[0] not in ("untested", "skipped"),
                               lambda: W(feature=f.name, scenario=sn, status_when_it_ran=st_run, reported=reported[0]))
+            for (fn, sn) in nested_victim:
+                if fn != f.name:
+                    continue
+                hit = [c for c in cases if norm((c["attrs"].get("name"), None)) == norm((sn, None))]
+                if len(hit) == 1 and (fn, sn) in executed:
+                    # a step of this scenario ran a sub-step that did not pass: the step and with it the scenario did not pass
+                    c = hit[0]
+                    st_c = c["attrs"].get("status")
+                    has_problem = any(x["tag"] in ("error", "failure") for x in c["children"])
+                    mon.check("testcases.scenario_whose_sub_step_did_not_pass_is_not_reported_passed",
+                              st_c not in ("passed", "skipped", "untested") and has_problem,
+                              lambda: W(feature=f.name, scenario=sn, sub_step=nested, reported_status=st_c, entries=[x["tag"] for x in c["children"]]))
             for (fn, sn) in cleanup_victim:
                 if fn != f.name:
                     continue
@@ -396,6 +420,16 @@ def run(spec, mon):
         if i % 6 == 2:
             case = dict(case, flip_show_skipped=rng.choice([True, False]))
             mon.seen("show_skipped_changed_at_runtime", str(case["flip_show_skipped"]))
+        if mode == 0 and not case["cfg"]["dry_run"] and not case.get("row_name_schema"):
+            # a passing step that runs a sub-step through context.execute_steps(); the sub-step fails, raises or is undefined
+            cands = [t for t, oc in case["program"]["outcomes"].items() if oc == "pass" and t[0] == "k"]
+            if cands:
+                sub_kind = rng.choice(["undefined", "fail", "error", "error"])
+                sub = ("u9%d sub step" if sub_kind == "undefined" else "k9%d sub step") % rng.randrange(1000, 9999)
+                if sub_kind != "undefined":
+                    case["program"]["outcomes"][sub] = sub_kind
+                case = dict(case, nested={rng.choice(cands): sub})
+                mon.seen("nested_sub_step", sub_kind)
         run_case(lab, mon, case, rng, messages, noisy, sample=(i == 0 and spec["shard"] == 0))
 
 
